@@ -58,6 +58,7 @@ def gen_history(rng, hid, nops, weights, big=40000):
     def checkpoint():
         toks.append("X")
         toks.append("A")
+        toks.append("T")
         for k in KEYS[:nkeys]:
             toks.append("G" + k)
         for s in live_snaps:
@@ -173,6 +174,11 @@ class DbSuite:
                     if b == "*":
                         if o == "X":
                             dumps.append((c, i, a, it[i + 1] if i + 1 < len(it) else ""))
+                            if i + 2 < len(it) and ops[i + 2] == "T":
+                                msg = descriptor_mismatch(a, it[i + 2])
+                                if msg:
+                                    bad = (i + 2, msg)
+                                    break
                         elif o[0] == "O" and a != "ok":
                             bad = (i, "reopen failed: %s" % a)
                             break
@@ -205,6 +211,32 @@ class DbSuite:
                                  "detail": "contents computed from the dumped structure at op %d differ from the scan" % opi, "at": opi})
         self.stats = {"dumps_judged": len(dumps)}
         return corr, prop
+
+
+def descriptor_mismatch(dump, desc):
+    """the SSTables / NumFilesAtLevel descriptors must describe the dumped version"""
+    import re
+    try:
+        levels = dump[dump.index("V[") + 2:dump.index("]mem[")].split("/")
+        nums = [[] if l == "-" else [int(f.split("@")[0]) for f in l.split("+")] for l in levels]
+        counts, sst = desc.split("#")
+        counts = [int(x) for x in counts.split(",")]
+        if counts != [len(n) for n in nums]:
+            return "NumFilesAtLevel %s differs from the dumped version %s" % (counts, [len(n) for n in nums])
+        text = bytes.fromhex(sst).decode("utf-8", "replace")
+        per = []
+        for line in text.split("\n"):
+            if line.startswith("--- Level"):
+                per.append([])
+            else:
+                m = re.match(r"(\d+) \(size: (\d+)\)", line)
+                if m and per:
+                    per[-1].append(int(m.group(1)))
+        if per != nums:
+            return "SSTables lists %s, dumped version has %s" % (per, nums)
+    except Exception as ex:
+        return "descriptor unparsable: %s" % ex
+    return None
 
 
 def still_fails(case, workdir):
